@@ -33,7 +33,8 @@ Section Model.
   Variable val : Type.
   Variable rt : val -> val.          (* JSON normalisation *)
   Variable vnet : Z -> val.          (* the connection id as stored by NewFrontSession (uint32) *)
-  Variable vfront : val.             (* the front's name (string) *)
+  Variable vfront : Z -> val.        (* the name (string) of the front-end a connection is connected to:
+                                        there may be several fronts, whose connection ids coincide *)
   Variable vempty : val.             (* "" *)
   Variable route : alist val -> option Z.   (* route function of the forwarded type, applied to the session *)
   Variable kinst : Z.                (* the instance serving OForwardKeep's type (default route) *)
@@ -68,6 +69,7 @@ Section Model.
   | OBackPush (b : Z)
   | OBackQuery (b : Z)
   | OBackScript (b : Z) (acts : list act)  (* pipelined: nothing is awaited between the steps *)
+  | OForwardKeepN (sid b : Z)              (* the same through a forwarded NOTIFICATION (no answer) *)
   | OForwardKeep (sid b : Z).              (* a forwarded request of sid whose handler ANSWERS FIRST and then
                                               keeps ctx.Session (the BackSession built from the envelope) as
                                               handle b, to go on using it *)
@@ -88,7 +90,7 @@ Section Model.
 
   Definition init : st := mkSt [] [].
 
-  Definition init_map (sid : Z) : smap := aset k_srv vfront (aset k_net (vnet sid) []).
+  Definition init_map (sid : Z) : smap := aset k_srv (vfront sid) (aset k_net (vnet sid) []).
 
   (* SessionData.UpdateFromJson / json.Unmarshal into an existing map: per key *)
   Definition merge_into (m w : smap) : smap :=
@@ -186,7 +188,7 @@ Section Model.
         match live s sid with
         | Some m =>
             match route m with
-            | Some i => (s, BFwd i (id_of m) vfront sid)
+            | Some i => (s, BFwd i (id_of m) (vfront sid) sid)
             | None => (s, BFwdNone)
             end
         | None => (s, BIgnored)
@@ -259,13 +261,22 @@ Section Model.
             end
         | None => (s, BIgnored)
         end
+    | OForwardKeepN sid b =>
+        match live s sid with
+        | Some m =>
+            (match aget b (backs s) with
+             | None => mkSt (front s) (aset b (mkB sid (aset k_id (id_of m) []) [] false) (backs s))
+             | Some _ => s
+             end, BUnit)
+        | None => (s, BIgnored)
+        end
     | OForwardKeep sid b =>
         match live s sid with
         | Some m =>
             (match aget b (backs s) with
              | None => mkSt (front s) (aset b (mkB sid (aset k_id (id_of m) []) [] false) (backs s))
              | Some _ => s
-             end, BFwd kinst (id_of m) vfront sid)
+             end, BFwd kinst (id_of m) (vfront sid) sid)
         | None => (s, BIgnored)
         end
     end.
@@ -300,6 +311,7 @@ Arguments OBackPush {val} b.
 Arguments OBackQuery {val} b.
 Arguments OBackScript {val} b acts.
 Arguments OForwardKeep {val} sid b.
+Arguments OForwardKeepN {val} sid b.
 Arguments AKick {val}.
 Arguments ASet {val} k v.
 Arguments APush {val}.
